@@ -2,7 +2,7 @@
    Universal statements over the line-by-line models of Edits.v. *)
 From Coq Require Import List ZArith.
 Import ListNotations.
-From V Require Import Valid.Hier Model.Graph Model.Edits Model.Edits2 Model.Edits3.
+From V Require Import Valid.Hier Model.Graph Model.Edits Model.Edits2 Model.Edits3 Model.TableSpec.
 
 (* the successors that are neither in S nor the new block keep their order *)
 Theorem C14_remaining_successors_untouched :
@@ -110,6 +110,24 @@ Theorem C14_control_blocks_any_targets :
     (forall x, x <> new -> ~ In x preds -> ~ In x names -> efind g' x = efind g x).
 Proof. exact insert_cb_spec. Qed.
 Print Assumptions C14_control_blocks_any_targets.
+
+(* value-table maintenance of a branching predecessor (SyntheticBranch.replace_jump_targets):
+   when the successors are replaced position by position - each stays or becomes a name that
+   was no successor - every value is sent to the new successor at the position of its old one,
+   and values whose target was no successor disappear; for every table with distinct keys and
+   every tuple of distinct successors *)
+Theorem C14_table_follows_successors :
+  forall tbl all_old new_jt, NoDup (map fst tbl) -> length new_jt = length all_old ->
+    (forall k s t, nth_error all_old k = Some s -> nth_error new_jt k = Some t -> t = s \/ ~ In t all_old) ->
+    NoDup all_old ->
+    forall res, table_rewrite tbl all_old new_jt all_old O [] = Some res ->
+    forall z, match zassoc z tbl with
+              | Some t => (forall k, nth_error all_old k = Some t -> zassoc z res = nth_error new_jt k) /\
+                          (~ In t all_old -> zassoc z res = None)
+              | None => zassoc z res = None
+              end.
+Proof. exact table_rewrite_lookup. Qed.
+Print Assumptions C14_table_follows_successors.
 
 (* non-vacuity *)
 Local Open Scope Z_scope.
